@@ -213,6 +213,16 @@ def run(ctx):
         mf = d / "model.json"
         mf.write_text(json.dumps(edoc))
         generator_model(ctx, "E", mf, "the composite evolved metamodel", problems)
+        if ctx.thorough():
+            # thorough tier: model == generate() and the theorem instances for further evolved metamodels (seeded edit sequences, VERIF_SEED)
+            import random
+            import evolve
+            for i, (tag, sdesc, sdoc) in enumerate(evolve.seeded(doc, random.Random(ctx.seed * 7919 + 17), 2, length=(3, 6))):
+                if evolve.discipline_problems(sdoc):
+                    continue
+                mfs = d / f"model-s{i}.json"
+                mfs.write_text(json.dumps(sdoc))
+                generator_model(ctx, f"S{i}", mfs, f"seeded evolved metamodel {i} [{sdesc[:200]} ...]", problems)
     finally:
         shutil.rmtree(d, ignore_errors=True)
     if problems and not [v for v in ctx.violations]:
